@@ -195,7 +195,7 @@ EvCacheList == /\ Report(IF ~KnownList(X(1)) THEN "foreign-object"
                                            ![A].when = Remember(@, caches[A].nlist + 1), ![A].nlist = @ + 1]
                /\ UNCHANGED <<buf, stages, pubs, fsubs, ctls, mons, pend, net>>
 
-EvCtlNew == /\ ctls' = (A :> [cache |-> X(1), sub |-> X(2), pub |-> X(3), watcher |-> X(5), ready |-> FALSE, nsync |-> 0, stopping |-> FALSE]) @@ ctls
+EvCtlNew == /\ ctls' = (A :> [cache |-> X(1), sub |-> X(2), pub |-> X(3), watcher |-> X(5), ready |-> FALSE, nsync |-> 0, stopping |-> FALSE, lp |-> FALSE]) @@ ctls
             /\ stages' = [stages EXCEPT ![X(2)].fed = TRUE]
             /\ UNCHANGED <<buf, caches, pubs, fsubs, mons, pend, net>>
 
@@ -208,7 +208,7 @@ EvCtlSynced ==
   /\ Report(First(<<IF evs # caches[c.cache].ev THEN "ctl-events-differ" ELSE "",
                     IF net.lists # <<>> /\ cand = {} THEN "synced-list-not-from-server" ELSE "">>),
             [ctl |-> A, events |-> evs, cache_events |-> caches[c.cache].ev, version |-> X(1), list |-> X(2), server_lists |-> net.lists, consumed |-> net.consumed])
-  /\ ctls' = [ctls EXCEPT ![A].nsync = @ + 1]
+  /\ ctls' = [ctls EXCEPT ![A].nsync = @ + 1, ![A].lp = FALSE]
   /\ stages' = IF X(4) THEN [stages EXCEPT ![c.sub].inq = @ \o evs] ELSE stages
   /\ net' = IF cand # {} THEN [net EXCEPT !.consumed = CHOOSE j \in cand : \A m \in cand : j <= m] ELSE net
   /\ UNCHANGED <<buf, caches, pubs, fsubs, mons, pend>>
@@ -436,6 +436,7 @@ EvQuiesce ==
       now == {<<"behind", s, ToString(stages[s].inq)>> : s \in behind} \cup {<<"pending", f, ToString(fsubs[f].outq)>> : f \in pending}
              \cup {<<"stuck", s, ToString(Head(BoxR(s)))>> : s \in stuck} \cup {<<"wstuck", w, "">> : w \in wstuck}
              \cup {<<"alive", s, "">> : s \in alive} \cup {<<"uninit", m, "">> : m \in uninit}
+             \cup {<<"unapplied", c, "">> : c \in {x \in DOMAIN ctls : ~ctls[x].stopping /\ ctls[x].lp}}
       still == now \cap pend.suspects
       Kind(k) == \E x \in still : x[1] = k IN
   /\ Report(IF ~R.ok THEN "not-quiescent"
@@ -443,6 +444,7 @@ EvQuiesce ==
             ELSE IF Kind("pending") THEN "events-not-emitted"
             ELSE IF Kind("stuck") \/ Kind("wstuck") THEN "stuck-at-quiescence"
             ELSE IF Kind("uninit") THEN "monitor-not-initialized"
+            ELSE IF Kind("unapplied") THEN "list-not-applied"
             ELSE IF Kind("alive") THEN "cascade-incomplete" ELSE "",
             [still_there_since_the_previous_quiescence |-> still])
   /\ pend' = [pend EXCEPT !.suspects = IF R.ok THEN now ELSE {}]
@@ -532,8 +534,12 @@ EvListerDelivered == /\ net' = [net EXCEPT !.tDelivered = R.t]
                      /\ UNCHANGED <<buf, caches, stages, pubs, fsubs, ctls, mons, pend>>
 
 \* ctl.list(type, err): the controller took a list result
-EvCtlList == /\ net' = [net EXCEPT !.failDelivered = @ \/ (X(2) # "") \/ (X(1) \notin {"*v1.PodList", "*v1.List"}), !.tConsumed = R.t]
-             /\ UNCHANGED <<buf, caches, stages, pubs, fsubs, ctls, mons, pend>>
+\* ctl.list(type, err): the controller took a list result.  C03: each completed list is applied to the cache (ctl.synced) -
+\* a good result that is followed by the next one, or by quiescence, without having been synced was ignored
+EvCtlList == /\ Report(IF ctls[A].lp THEN "list-not-applied" ELSE "", [ctl |-> A])
+             /\ net' = [net EXCEPT !.failDelivered = @ \/ (X(2) # "") \/ (X(1) \notin {"*v1.PodList", "*v1.List"}), !.tConsumed = R.t]
+             /\ ctls' = [ctls EXCEPT ![A].lp = (X(2) = "" /\ X(1) \in {"*v1.PodList", "*v1.List"})]
+             /\ UNCHANGED <<buf, caches, stages, pubs, fsubs, mons, pend>>
 
 EvWatcherNew == /\ net' = [net EXCEPT !.wat = (A :> (NewBox @@ [ver |-> "", sess |-> ""])) @@ @]
                 /\ UNCHANGED <<buf, caches, stages, pubs, fsubs, ctls, mons, pend>>
